@@ -271,8 +271,9 @@ func runCompile(s *Session) []Event {
 		if s.SelfFirst {
 			_, _ = try(func() error { return rb.BuildRuleFromString(s.Text) })
 			if err := rb.BuildRuleWithIncremental(baseText); err != nil {
-				fmt.Fprintf(os.Stderr, "driver: base text does not merge: %v\n", err)
-				os.Exit(2)
+				// the base text is valid: an entry point that refuses it (in whatever state it is) is recorded and judged
+				all = append(all, Event{"ev": "cm_base", "ep": ep, "ok": false, "msg": fmt.Sprint(err)})
+				return all
 			}
 			var extra []string
 			for k := range rb.Kc.RuleEntities {
@@ -290,8 +291,8 @@ func runCompile(s *Session) []Event {
 				_ = rb.RemoveRules(extra)
 			}
 		} else if err := rb.BuildRuleFromString(baseText); err != nil {
-			fmt.Fprintf(os.Stderr, "driver: base text does not compile: %v\n", err)
-			os.Exit(2)
+			all = append(all, Event{"ev": "cm_base", "ep": ep, "ok": false, "msg": fmt.Sprint(err)})
+			return all
 		}
 		var err error
 		var pv interface{}
@@ -347,8 +348,8 @@ func runCompile(s *Session) []Event {
 			})
 			if p != nil {
 				if e := p.UpdatePooledRulesIncremental(baseText); e != nil {
-					fmt.Fprintf(os.Stderr, "driver: base text does not merge into the pool: %v\n", e)
-					os.Exit(2)
+					all = append(all, Event{"ev": "cm_base", "ep": ep, "ok": false, "msg": fmt.Sprint(e)})
+					return all
 				}
 				var extra []string
 				ex := p.IsExist(uni)
@@ -371,8 +372,8 @@ func runCompile(s *Session) []Event {
 		if p == nil {
 			p, err = engine.NewGenginePool(1, 2, engine.SortModel, baseText, api())
 			if err != nil {
-				fmt.Fprintf(os.Stderr, "driver: base pool: %v\n", err)
-				os.Exit(2)
+				all = append(all, Event{"ev": "cm_base", "ep": ep, "ok": false, "msg": fmt.Sprint(err)})
+				return all
 			}
 		}
 		base := s.Base
